@@ -125,8 +125,9 @@ def front_of(mappings, metric_names, with_structure=True):
                    if not c.endswith("<SEP>mapping") and not c.startswith("Total<SEP>")}
             ent["detail"] = sha(num)
         rows.append(ent)
+    order = [(json.dumps(e["obj"]), e.get("mapping", "")) for e in rows]  # as returned
     rows.sort(key=lambda e: (json.dumps(e["obj"]), e.get("mapping", ""), e.get("detail", "")))
-    return {"objective_columns": ocols, "rows": rows}
+    return {"objective_columns": ocols, "rows": rows, "order": order}
 
 
 def _close(a, b, rel=1e-6):
@@ -167,4 +168,9 @@ def compare_fronts(ref, got):
             return "representative", (f"objective vectors equal, but row with objective {ma[k][0]} maps to "
                                       f"structure {mb[k][1][:10]} instead of {ma[k][1][:10]} "
                                       f"(all reported totals equal: {same_totals}; ref totals {ta}; got {tb})")
+    if ref.get("order") is not None and got.get("order") is not None and ref["order"] != got["order"]:
+        k = next(i for i, (p, q) in enumerate(zip(ref["order"], got["order"])) if p != q)
+        return "row_order", (f"same rows, but returned in a different order: position {k} holds the row with "
+                             f"objective {got['order'][k][0]} instead of {ref['order'][k][0]} "
+                             f"(mappings[{k}] is a different mapping)")
     return None
